@@ -158,6 +158,15 @@ def run(out, tier, seed, proof):
     rng = rng_for(seed, "c11")
     n = 48 if tier == "quick" else 600
     cases = [gen_case(rng) for _ in range(n)]
+    # fixed cases: a wholly unknown directory next to siblings whose names sort between it and its content
+    # ("aa" < "aa-old" < "aa.zip" < "aa/in"), the root and an inner directory as path arguments, --directories
+    for pa in ([".", "aa/in"], ["aa/in", "."], [".", "aa/in", "aa"]):
+        fl = {"aa/u1.txt": "x", "aa/in/u4.txt": "x", "aa-old/o1.txt": "x", "aa.zip": "x", "aa in.txt": "x", "zz_last.txt": "x",
+              "pyproject.toml": "[tool.pytask.ini_options]\n",
+              "task_m0.py": TASK.format(i=0, args="p0: Annotated[Path, Product] = ROOT / 'prod.txt'", up="")}
+        cases.append({"files": sorted(fl.items()), "dirs": ["aa", "aa-old", "aa/in"], "git": False, "git_add": [], "proj_rel": "", "outer_files": [],
+                      "dirs_flag": True, "cli_exclude": [], "mods": {"task_m0.py": ["task_m0.py", "prod.txt"]}, "path_args": pa,
+                      "known_rel": ["prod.txt", "task_m0.py"], "cfg_exclude": []})
     chunks = [cases[i::JOBS] for i in range(JOBS)]
     with ThreadPoolExecutor(max_workers=JOBS) as ex:
         res_chunks = list(ex.map(lambda ch: run_impl_worker("impl_clean.py", ch, timeout=3000) if ch else [], chunks))
